@@ -39,10 +39,7 @@ Silent   == (GC \/ Restart \/ R1 \/ R2 \/ R3) /\ Quiet
 SimInit == Init /\ hist = <<[op |-> "init", t |-> tr, page |-> Page, rub |-> RUB]>>
 \* a node that is down or inside a multi-batch operation can only take the silent step (or crash)
 Busy == ~up \/ pc # <<>>
-SimNext ==
-    \/ (~Busy /\ \E t \in RSet : SRetrust(t))
-    \/ (~Busy /\ \E t \in RSet : SRetrust(t))
-    \/
+SimBase ==
     /\ tr' = tr /\ base' = base
     /\ IF Busy THEN (Silent \/ Silent \/ Silent \/ SCrash)
        ELSE \/ \E n \in 1..(Page + 1) : SHdr(n)
@@ -53,6 +50,8 @@ SimNext ==
             \/ SCrash
             \/ \E h \in 0..MaxH : SReset(h)
             \/ \E i \in 0..MaxH : SLook(i)
+SimRetrust == ~Busy /\ \E t \in RSet : SRetrust(t)
+SimNext == SimBase \/ SimRetrust
 SimSpec == SimInit /\ [][SimNext]_<<vars, hist>>
 Emit == Len(hist) # Depth \/ PrintT(<<"@@HIST@@", ToJson(hist)>>)
 
